@@ -331,7 +331,40 @@ func blockedInLibrary(dump, marker string) (bool, string) {
 			}
 		}
 	}
-	return false, ""
+	// Parked on a lock / condition / wait group taken inside the library: a witness only if nobody who could release it is
+	// at work, i.e. every goroutine with library frames on its stack is itself parked with a library frame innermost (a
+	// lock held by a goroutine that is busy inside a sink or a system call is ordinary contention, not a deadlock).
+	isPark := func(hdr string) bool {
+		for _, k := range []string{"chan send", "chan receive", "select", "sync.Mutex.Lock", "sync.RWMutex", "semacquire", "sync.Cond.Wait", "sync.WaitGroup.Wait"} {
+			if strings.Contains(hdr, k) {
+				return true
+			}
+		}
+		return false
+	}
+	isLockPark := func(hdr string) bool {
+		return isPark(hdr) && !strings.Contains(hdr, "chan send") && !strings.Contains(hdr, "chan receive") && !strings.Contains(hdr, "select")
+	}
+	witness := ""
+	for _, g := range strings.Split(dump, "\n\n") {
+		hdr, _, _ := strings.Cut(g, "\n")
+		if strings.Contains(g, marker) && isLockPark(hdr) && libTop("goroutine "+strings.TrimPrefix(g, "goroutine ")) {
+			witness = g
+		}
+	}
+	if witness == "" {
+		return false, ""
+	}
+	for _, g := range strings.Split(dump, "\n\n") {
+		if !libFrameRe.MatchString(g) {
+			continue
+		}
+		hdr, _, _ := strings.Cut(g, "\n")
+		if !isPark(hdr) || !libTop("goroutine "+strings.TrimPrefix(g, "goroutine ")) {
+			return false, ""
+		}
+	}
+	return true, witness
 }
 
 // stuckInLibrary classifies a call that did not return: "blocked" when its goroutine is parked on a
